@@ -112,9 +112,40 @@ def entry_loop_roles():
         loops = sorted((n for n in _ast.walk(fnode) if isinstance(n, (_ast.For, _ast.While))), key=lambda n: (n.lineno, n.col_offset))
         return loops.index(lp), roles
     except LookupError as e:
+        try:
+            up = _upfront_totals(m, "validate_zipfile")
+        except Exception:  # noqa -- not a shape read here
+            up = None
+        if up is not None:
+            return up
         return 0, str(e)
     except (OSError, SyntaxError, KeyError) as e:
         return 0, f"{type(e).__name__}: {e}"
+
+
+def _upfront_totals(m, qual):
+    """Round 6: the container-wide totals are not accumulated in the entry loop but taken before it as `t = sum(<comprehension
+    over SEQ>)` (top-level statements of the function) and the entry loop is the `for` over the same SEQ: (loop ordinal, {}) --
+    the invariant then speaks about the entries only; the totals are tied to the spec totals by the fold lemma the executor
+    emits where the `sum` is evaluated (C11Executor._upfront_sum).  None when this is not the shape."""
+    import ast as _ast
+    from contracts import C11_roles
+    fn = m.functions[qual]
+    sums = {}
+    for stmt in fn.body:
+        if isinstance(stmt, _ast.Assign) and len(stmt.targets) == 1 and isinstance(stmt.targets[0], _ast.Name):
+            v = stmt.value
+            if isinstance(v, _ast.Call) and isinstance(v.func, _ast.Name) and v.func.id == "sum" and len(v.args) == 1 and not v.keywords \
+                    and isinstance(v.args[0], (_ast.GeneratorExp, _ast.ListComp)) and len(v.args[0].generators) == 1 \
+                    and isinstance(v.args[0].generators[0].iter, _ast.Name):
+                sums.setdefault(v.args[0].generators[0].iter.id, []).append(stmt.targets[0].id)
+    loops = C11_roles.loops_of(fn)
+    for k, lp in enumerate(loops):
+        if isinstance(lp, _ast.For) and isinstance(lp.iter, _ast.Name) and len(sums.get(lp.iter.id, [])) >= 2 and lp in fn.body:
+            assigned = {n.id for b in lp.body for n in _ast.walk(b) if isinstance(n, _ast.Name) and isinstance(n.ctx, _ast.Store)}
+            if not assigned & set(sums[lp.iter.id]):
+                return k, {}
+    return None
 
 
 def make_loop_inv(roles):
@@ -133,12 +164,15 @@ def loop_inv(lc, roles):
          "entry_ratio": Ld["max_entry_compression_ratio"].t}
     i = lc.i
     j = z3.Int("j!inv")
+    entries_ok = z3.ForAll([j], z3.Implies(z3.And(j >= 0, j < i), z3.Not(entry_bad(info_at(zf, j), L))),
+                           patterns=[info_at(zf, j)])
+    if not roles:           # totals taken up front (see _upfront_totals): the loop only judges the entries
+        return entries_ok
     return z3.And(
         ops.int_term(lc[roles["file_size"]]) == SU(zf, i),          # the local that accumulates file_size (bound by role)
         ops.int_term(lc[roles["compress_size"]]) == SC(zf, i),     # the local that accumulates compress_size
         SU(zf, i) <= L["total"],
-        z3.ForAll([j], z3.Implies(z3.And(j >= 0, j < i), z3.Not(entry_bad(info_at(zf, j), L))),
-                  patterns=[info_at(zf, j)]),
+        entries_ok,
     )
 
 
@@ -854,6 +888,90 @@ class C11Executor(_verify.Executor):
                             for (s6, swallowed) in self.fork_truth(s5, rv):
                                 outs.append(Outcome("fall", s6) if swallowed else Outcome("raise", s6, o.val))
         return outs
+
+    # -- round 6: `sum(<comprehension over the entry sequence>)` is a fold over the central directory: a spec function
+    #    FOLD(z, i) = FOLD(z, i-1) + contribution(entry i-1), the contribution read by executing the REAL element expression (and
+    #    filters) on the symbolic entry.  The fold is tied to the spec total it stands for (SU / SC: the field it agrees with on
+    #    non-directory entries) by an induction schema emitted as obligations of the function (`lemma#upfront-total-of-<field>-
+    #    equals-spec-total.base/.step`), then assumed at i = n.  A fold that counts directory records fails the step.
+    def _upfront_sum(self, n, st):
+        import ast as _ast
+        if not (isinstance(n.func, _ast.Name) and n.func.id == "sum" and len(n.args) == 1 and not n.keywords
+                and isinstance(n.args[0], (_ast.GeneratorExp, _ast.ListComp)) and st.lookup("sum") is None
+                and "sum" not in self.module.functions and "sum" not in self.module.assigns and "sum" not in self.module.imports):
+            return None
+        comp = n.args[0]
+        if len(comp.generators) != 1:
+            return None
+        g = comp.generators[0]
+        if g.is_async or not isinstance(g.target, _ast.Name) or not isinstance(g.iter, _ast.Name):
+            return None
+        seq = st.lookup(g.iter.id)
+        if not (isinstance(seq, VSeq) and seq.ekind == "ZipInfo" and z3.is_app(seq.length) and seq.length.decl().name() == "zip_n"):
+            return None
+        zf = seq.length.arg(0)
+        k = z3.Int(fresh_name("k!fold"))
+        probe = st.fork()
+        base = len(probe.pc)
+        probe.assume(z3.And(k >= 0, k < n_of(zf)))
+        probe.frames.append(type(probe.frames[-1])({g.target.id: VExt("ZipInfo", info_at(zf, k))}, len(probe.frames) - 1, None))
+        self.sinks.append([])
+        try:
+            outs = []
+            live = [(probe, z3.BoolVal(True))]
+            for c in g.ifs:
+                nxt = []
+                for (s1, cond) in live:
+                    for (s2, v) in self.ev(c, s1):
+                        nxt.append((s2, z3.And(cond, self.truth(s2, v).t)))
+                live = nxt
+            for (s1, cond) in live:
+                for (s2, v) in self.ev(comp.elt, s1):
+                    if not isinstance(v, (VInt, VBool)):
+                        self.unsupported(n, "sum over the entry sequence: element is not an integer")
+                    outs.append((z3.And(s2.pc[base + 1:] + [z3.BoolVal(True)]), cond, ops.int_term(v)))
+        finally:
+            raised = self.sinks.pop()
+        if raised or not outs:
+            self.unsupported(n, "sum over the entry sequence: the element expression may raise / has no value")
+        contrib_k = z3.IntVal(0)
+        for (path, cond, t) in reversed(outs):
+            contrib_k = z3.If(path, z3.If(cond, t, 0), contrib_k)
+        contrib_k = z3.simplify(contrib_k)
+        e = info_at(zf, k)
+        nn = [k >= 0, k < n_of(zf), fs(e) >= 0]
+        field = None
+        for name, F in (("file_size", fs), ("compress_size", cs)):
+            if not self.feasible(nn + [z3.Not(isdir(e))], contrib_k != F(e)):
+                field = name
+                break
+        if field is None:
+            self.unsupported(n, "sum over the entry sequence: not the total of file_size or compress_size of the entries")
+        S = SU if field == "file_size" else SC
+        FOLD = z3.RecFunction(fresh_name(f"FOLD_{field}"), ZipFile, I, I)
+        zv, iv = z3.Const("z!fold", ZipFile), z3.Int("i!fold")
+        z3.RecAddDefinition(FOLD, [zv, iv], z3.If(iv <= 0, 0, FOLD(zv, iv - 1) + z3.substitute(contrib_k, (k, iv - 1), (zf, zv))))
+        b = z3.Int(fresh_name("b!fold"))
+        eb = info_at(zf, b)
+        label = f"upfront-total-of-{field}-equals-spec-total"
+        self.add_vc("lemma", label + ".base", [], FOLD(zf, 0) == S(zf, 0), loc=self.loc(n))
+        self.add_vc("lemma", label + ".step", [b >= 0, b < n_of(zf), fs(eb) >= 0, FOLD(zf, b) == S(zf, b)],
+                    FOLD(zf, b + 1) == S(zf, b + 1), loc=self.loc(n))
+        st.ghost.setdefault("c11!folds", ())
+        st.ghost["c11!folds"] = st.ghost["c11!folds"] + (FOLD,)          # keeps the declaration alive
+        st.assume(FOLD(zf, n_of(zf)) == S(zf, n_of(zf)))
+        return [(st, VInt(FOLD(zf, n_of(zf))))]
+
+    def e_Call(self, n, st):
+        try:
+            r = self._upfront_sum(n, st)
+        except ops.Unsupported:
+            raise
+        except Exception as e:  # noqa -- not a shape read here: the engine decides
+            r = None
+        if r is not None:
+            return r
+        return super().e_Call(n, st)
 
     def mutated_refs(self, stmts, st):
         refs = super().mutated_refs(stmts, st)
